@@ -324,10 +324,10 @@ def generate(rng, tier):
         for i in range(150):
             out.append(gen_history(rng, rng.randint(6, 25), gen_start(rng) if i % 2 else None))
     else:
-        for i in range(520):
-            out.append(gen_history(rng, rng.randint(10, 60), gen_start(rng) if i % 2 else None))
-        for i in range(60):
-            out.append(gen_history(rng, rng.randint(100, 150), gen_start(rng) if i % 2 else None))
+        # every 18th history is long; interleaved so that the case files (SHARD histories each) cost about the same
+        for i in range(432):
+            ln = rng.randint(100, 150) if i % 18 == 17 else rng.randint(10, 60)
+            out.append(gen_history(rng, ln, gen_start(rng) if i % 2 else None))
     return out
 
 
@@ -432,14 +432,13 @@ def mutate_case(rng, case):
 
 
 CLAIMED = True
-LEVEL_TEXT = ("Theorems (all states satisfying the invariant, all arguments): every call of add (default flags or uid=True), connect, "
-              "disconnect, remove, set_output, add_blackbox and add_subcircuit (subcircuit itself legally wired) -- succeeding or "
-              "raising -- preserves the wiring invariant, hence so does every finite history of them from the empty circuit or any "
-              "legal state; a rejected add/connect/set_output/fill_blackbox leaves the edge set unchanged and raises ValueError "
-              "(KeyError for set_output on a missing node); add never changes an existing node and uid=True picks a free name; pins "
-              "of recorded instances keep their type under add/connect/disconnect/remove/set_output. fill_blackbox (invariant), "
-              "rejected add_blackbox/add_subcircuit (no new edge) and the pin clause for the three blackbox operations are stated in "
-              "full and decided per history by the oracle.")
+LEVEL_TEXT = ("Theorems (all states satisfying the invariant, all arguments, call succeeding or raising): add (default flags or uid=True), "
+              "connect, disconnect, remove, set_output, add_blackbox and add_subcircuit (subcircuit itself legally wired) preserve the "
+              "wiring invariant and the pin clause, hence so does every finite history of them from the empty circuit or any legal "
+              "state; a rejected call of ANY of the eight operations changes no edge and not the registry and raises ValueError "
+              "(KeyError for set_output on a missing node); add never changes an existing node, returns a free name, and the uid loop "
+              "always ends on a free name. Open: a SUCCEEDING fill_blackbox (invariant and pin clause) is stated in full and decided "
+              "per history by the Coq oracle on the recorded implementation states.")
 LEVEL_NOTE = ("Trusted: Coq kernel + vm_compute, std++, translator shapes for the type lists of connect/add (Gen_types, proved equal "
               "to the documented lists), harness canonicalisation and the recorded set orders. The hand-written state machine "
               "Base/Api.v is tied to circuitgraph.Circuit by equality of the full state after every call of the generated histories.")
